@@ -139,6 +139,7 @@ CONFIGS = {
     "two-predicate-classes": dict(args=[0], handlers=[{0: _t("g0", GEN)}, {0: _t("h0", GEN2)}], slf=False, next="next"),
     "shared-type": dict(args=[0, 1], handlers=[{0: _t("g0", GEN), 1: _t("g1", GEN)}, {0: _t("g0", GEN), 1: _t("g2", GEN)}], slf=False, next="next"),
     "keyword-position": dict(args=[0, "kw"], handlers=[{0: S, "kw": _t("g0", GEN)}, {0: S, "kw": _t("g1", GEN)}, {0: S, "kw": _t("g2", GEN)}], slf=True, next="next"),
+    "static-member-of-the-rank": dict(args=[0, 1], handlers=[{0: _t("g0", GEN), 1: S}, {0: S, 1: _t("S2", STATIC)}], slf=False, next="next"),
     "declared-position-not-supplied": dict(args=[0], handlers=[{0: _t("g0", GEN), 1: _t("g9", GEN)}, {0: _t("g1", GEN)}], slf=False, next="next"),
     "three-constants-one-name": dict(args=[0], handlers=[{0: _t("g0", GEN)}, {0: _t("g1", GEN)}, {0: _t("g2", GEN)}, {0: _t("g3", GEN)}], slf=False, next="next"),
     "exclusive-then-predicates": dict(args=[0, 1], handlers=[{0: _t("e0", EXC), 1: _t("g0", GEN)}, {0: _t("e1", EXC), 1: _t("g1", GEN)}], slf=False, next="next"),
@@ -355,6 +356,7 @@ class Generated:
             return v
 
         genv = {n: conv(n, v) for n, v in self.inject.items()}
+        genv["isinstance"] = lambda v, t: t.holds(v) if isinstance(t, DType) and isinstance(v, Val) else (isinstance(v, t) if isinstance(t, type) else False)
         genv["KEYOF"] = HostFn(lambda x: x.key if isinstance(x, Val) else misuse.append(f"key taken of {x!r}"))
         hi = HostInterp({}, Record(), {}, globals_env=genv, classes=self.hi.classes, functions=self.hi.functions)
         a = self.fn.args
@@ -368,6 +370,8 @@ class Generated:
             return ("raise", getattr(r, "value", None)), misuse
         except AnalysisError as e:
             return ("stuck", str(e)), misuse
+        except (TypeError, ValueError, KeyError, AttributeError) as e:
+            return ("stuck", f"{type(e).__name__}: {e}"), misuse
         return out, misuse
 
 
@@ -449,7 +453,13 @@ def check(ctx, cfg_name):
     """-> dict law -> list of problems."""
     g = generated(ctx)[cfg_name]
     cfg = CONFIGS[cfg_name]
-    problems = {"decision": [], "hand-over": [], "signature": [], "injection": [], "check-placement": [], "result": [], "pure-handover": []}
+    problems = {"decision": [], "hand-over": [], "signature": [], "injection": [], "check-placement": [], "result": [], "pure-handover": [], "only-dependent-checks": []}
+    # ---- the plain classes of the signatures were settled by the table lookup: the dispatcher does not test them again
+    for n_, v_ in g.inject.items():
+        if isinstance(v_, DType) and not v_.dep:
+            problems["only-dependent-checks"].append(f"the plain type {v_!r} is injected as `{n_}` and tested on every call")
+        if isinstance(v_, Checker) and not v_.t.dep:
+            problems["only-dependent-checks"].append(f"a check of the plain type {v_.t!r} is injected as `{n_}` and run on every call")
     if g.fn is None:
         for k in problems:
             problems[k].append(f"the generated dispatcher does not parse: {g.syntax_error}")
@@ -526,6 +536,7 @@ LAW_TEXT = {
     "injection": ("every handler of the rank is reachable from the generated code", "a handler of the rank can never be chosen"),
     "check-placement": ("each type's check is applied to the argument of the position the type was declared at", "a condition is evaluated on another argument than the one it was declared for"),
     "pure-handover": ("the chosen callee's call is the operand of `return`: its result and its exceptions reach the caller unchanged", "the dispatcher post-processes the method's result or catches its exceptions"),
+    "only-dependent-checks": ("the dispatcher tests value-dependent types only: plain classes were settled by the (cached) table lookup", "a class predicate is consulted again on every call although the type combination is cached"),
     "result": ("the generator returns the instantiated dispatcher (renamed for the table)", "the table stores something else than the dispatcher"),
 }
 
